@@ -413,6 +413,20 @@ def handle (op : String) : P String := do
       let k ← nat; let (xs, ts) ← samples k; let tol ← flt; let train ← boolean
       pure (respond (n.bind (fun n => (if train then n.setAllTraining true else n).validate xs ts tol))
         (fun r => s!"{rF r.2.1} {rF r.2.2} flags " ++ " ".intercalate (r.1.flags.map rBool)))
+    | "relearn" => do
+      -- `learn` called twice on one network: the second run starts from the parameters AND the optimizer state the
+      -- first one left behind; the second run's histories are reported
+      let k ← nat; let (xs, ts) ← samples k
+      let hasVal ← boolean
+      let val ← if hasVal then (do
+          let kv ← nat; let (vx, vt) ← samples kv; let thr ← nat
+          pure (some (vx, vt, thr))) else pure none
+      let batch ← nat; let epochs ← nat
+      let ns ← nat; let script ← many flt ns
+      let _print ← optTrailingNat
+      pure (respond (n.bind (fun n => (n.learn xs ts val batch epochs script).bind (fun r1 => r1.net.learn xs ts val batch epochs script))) (fun r =>
+        s!"{r.trainLoss.length} {r.valLoss.length} {r.valAcc.length} " ++ rV1 r.trainLoss ++ " | " ++ rV1 r.valLoss ++ " | " ++
+          rV1 r.valAcc ++ " | " ++ rNetParams r.net ++ " flags " ++ " ".intercalate (r.net.flags.map rBool)))
     | "learn" => do
       let k ← nat; let (xs, ts) ← samples k
       let hasVal ← boolean
